@@ -66,6 +66,11 @@ def plan(tier):
         ("ninvert", "same", None, [hx(1), hx(2), hx(patB), hx(nm1)] if not q else [hx(2), hx(patB), hx(nm1)], 0),
         ("basemult", "same", None, [hx(v) for v in (scal if not q else scal[:3] + [0])], 0),
     ]
+    # the signing entry point with a fixed digest and nonce and different private keys, among them keys
+    # whose 1+d has leading zero bytes (scoped symbols only: math/big and the runtime are not judged)
+    pub = hx(int("3c" * 32, 16)) + hx(patB) + hx(patA)
+    jobs.append(("signhashed", "verdict", pub, [hx(patA), hx(1), hx((1 << 240) + 5), hx(nm1 - 1), hx((1 << 200) - 2)]
+                 if not q else [hx(patA), hx((1 << 240) + 5), hx(nm1 - 1)], 0))
     if not q:
         jobs.append(("mult", "same", None, [hx(v) for v in scal[:4]] + [hx(0), hx(T256 - 1)], 0))
         jobs.append(("ptbytes", "same", None, [hx(v) for v in scal[:4]], 0))
